@@ -885,11 +885,19 @@ Section Order.
     { destruct a; try exact I.
       assert (Ec : t_commit T = Some Done) by (apply S3; eauto).
       assert (Ev : t_validate T = Some Done) by (apply S2; rewrite Ec; eauto).
-      apply phase_scan_KM; auto.
-      - intros t p Hin Hp Hg. destruct (listed_facts w i T t p HK HT Hin Hp) as (Po & Ag & B1 & B2 & B3 & B4).
+      assert (Hstart : forall t (p : prop), In t (default [] (t_props T)) -> props w !! (t, i) = Some p -> p_apply p = None ->
+                p_le p (p <| p_apply := Some Doing |>) /\ p_ord (p <| p_apply := Some Doing |>) /\
+                backed (txs w) (t, i) (p <| p_apply := Some Doing |>) /\ p_init (p <| p_apply := Some Doing |>) = p_init p).
+      { intros t p Hin Hp Hg. destruct (listed_facts w i T t p HK HT Hin Hp) as (Po & Ag & B1 & B2 & B3 & B4).
         destruct Ag as (A1 & A2 & A3 & A4 & A5).
         destruct (start_apply p Po Hg (A3 Ec)) as (L & O & Ie). split; [exact L|]. split; [exact O|]. split; [|exact Ie].
-        eapply backed_start; eauto using (j_back _ HJ); cbn; intros Hs; auto; try (right; eexists; eassumption).
+        eapply backed_start; eauto using (j_back _ HJ); cbn; intros Hs; auto; try (right; eexists; eassumption). }
+      destruct (scan_props w i _ (fun p => is_none (p_apply p))) as [[u|[t p]]|] eqn:Hsc; [exact I| |].
+      { apply scan_inr in Hsc. destruct Hsc as (Hin & Hp & Hf). apply is_none_true in Hf. apply chain_one.
+        destruct (Hstart _ _ Hin Hp Hf) as (A & B & C & E).
+        apply KM_eff; [exact HKM| |cbn; eauto].
+        apply (K_put_prop w (t, i) p); auto. rewrite E. intros Hd. eapply (k_cfg _ HK); eauto. }
+      apply phase_scan_KM; auto.
       - intros t p Hin Hp _ Hg. apply tx_safe_phase; [exact HK|exact HT|reflexivity|reflexivity|solve_tok T|agree_keep|vfail_tac].
       - intros Hall. apply tx_safe_phase; [exact HK|exact HT|reflexivity|reflexivity|solve_tok T| |vfail_tac].
         intros t P Hin HP (A1 & A2 & A3 & A4 & A5). destruct (Hall t Hin) as (p & Hp & [Hd|[Hst _]]); [|discriminate Hst].
